@@ -93,7 +93,8 @@ def deflate_table(ctx, cfg, r1, r2, r3, r5):
         return
     head = heads.pop()
     ev = paths.Evaluator(c, inline=["StreamResult::error"], effects=ctx.effects(cfg))
-    it = ev.run(f, start_bb=head)
+    # values computed once before the loop (e.g. a hoisted TDEFLFlush::from(flush)) are carried into the iteration
+    it = ev.run(f, start_bb=head, init_store=loop_invariant_store(c, f, head, inline=["StreamResult::error"], effects=ctx.effects(cfg)))
     for row in it:
         comp = calls_named(row, "deflate::core::compress")
         if len(comp) != 1:
@@ -158,8 +159,9 @@ def deflate_table(ctx, cfg, r1, r2, r3, r5):
             continue
         if _err(status, "Buf"):
             nothing = vs(row, ("bin", "Gt", written, ("int", 0), "bool")).single() == 0 or True
-            zero_w = any(vs(row, t).single() == 0 for t, s in row.atoms if t[0] == "bin" and t[1] == "Gt" and t[2] == written)
-            zero_c = any(vs(row, t).single() == 0 for t, s in row.atoms if t[0] == "bin" and t[1] == "Gt" and t[2] == consumed)
+            # decided on the value sets of the two totals (however the test is spelled: `> 0`, `== 0`, `!= 0`)
+            zero_w = vs(row, written).single() == 0 or any(vs(row, t).single() == 0 for t, s in row.atoms if t[0] == "bin" and t[1] == "Gt" and t[2] == written)
+            zero_c = vs(row, consumed).single() == 0 or any(vs(row, t).single() == 0 for t, s in row.atoms if t[0] == "bin" and t[1] == "Gt" and t[2] == consumed)
             if fl.single() == MF["None"] and zero_w and zero_c:
                 r3.ok(fn, "exit-noprogress", "Err(Buf) only with flush==None, nothing consumed, nothing written")
             else:
